@@ -7643,6 +7643,12 @@ impl PeerConnection {
     pub fn verif_sctp(&self) -> Option<Arc<SctpTransport>> {
         self.inner.sctp_transport.lock().clone()
     }
+
+    /// The DTLS role this PeerConnection derived from the SDP exchange
+    /// (`Some(true)` = client / active).
+    pub fn verif_dtls_role(&self) -> Option<bool> {
+        *self.inner.dtls_role.borrow()
+    }
 }
 
 #[cfg(test)]
